@@ -14,7 +14,9 @@ CONSTANTS
   Avails = {0, 2, 5}
   CapAts = {0, 1, 3, 5}
   CapAts2 = {1, 3}
+  OverKinds = {"plus1", "total", "total1"}
+  TouchCaps = {0, 1, 5}
 VIEW View
 INVARIANTS InitLeSpare Nested Contents OwnerBytes Untouched
-PROPERTIES Frame WriteBack Refusal SliceReported
+PROPERTIES Frame WriteBack Refusal SliceReported RefusedCounts
 CHECK_DEADLOCK FALSE
